@@ -203,7 +203,10 @@ theorem literalIntWith_good (f : UInt8 → Option Nat) (base : Nat) (inp : Bytes
   · rename_i e he; rw [he] at hg; exact hg.error_cast
   · rename_i rest v he
     rw [he] at hg
-    exact opt_suffix hg (intType_good rest)
+    dsimp only
+    split
+    · exact opt_suffix hg (intType_good rest)
+    · exact List.suffix_refl _
 
 theorem literalIntWith_strict (f : UInt8 → Option Nat) (base : Nat) (inp : Bytes) :
     Strict inp (literalIntWith f base inp) := by
@@ -214,7 +217,10 @@ theorem literalIntWith_strict (f : UInt8 → Option Nat) (base : Nat) (inp : Byt
   · rename_i rest v he
     rw [he] at hs
     have := opt_len (intType_good rest)
-    simp only [Strict] at hs ⊢; omega
+    dsimp only
+    split
+    · simp only [Strict] at hs ⊢; omega
+    · trivial
 
 theorem literalIntWith_error {f : UInt8 → Option Nat} {base : Nat} {inp : Bytes} {e : LexErr}
     (h : literalIntWith f base inp = .error e) :
@@ -223,7 +229,10 @@ theorem literalIntWith_error {f : UInt8 → Option Nat} {base : Nat} {inp : Byte
   unfold literalIntWith at h
   split at h
   · rename_i e' he; simp at h; subst h; exact digitsWith_error he
-  · cases h
+  · dsimp only at h
+    split at h
+    · cases h
+    · simp at h; exact .inr (.inr h.symm)
 
 theorem literalInt_good (inp : Bytes) : Good inp (literalInt inp) := by
   unfold literalInt
